@@ -9,7 +9,18 @@ def budget(tier):
 
 
 def gen_case(rng, tier, idx):
-    return gen_accounting_case(rng, tier, hft=(rng.choice([1, 2, 3]) if idx % 2 == 0 else None))
+    case = gen_accounting_case(rng, tier, hft=(rng.choice([1, 2, 3]) if idx % 2 == 0 else None))
+    if idx % 5 == 2:
+        # an event that acts on the markets at session boundaries: what it submits or cancels before a session opens
+        # / after it closes is written between two boundary records
+        cfg = case["config"]
+        ss = cfg["simulation"]["sessions"]
+        cfg["OPENER"] = {"class": "ProbeEvent", "hooks": [{"type": "session", "before": True, "time": None},
+                                                          {"type": "session", "before": False, "time": None}],
+                         "sessionActions": {"before": rng.choice([["order"], ["cancel"], ["order", "cancel"]]),
+                                            "after": rng.choice([[], ["order"], ["cancel"]]), "ttl": rng.choice([1, 2, 30])}}
+        ss[rng.randrange(len(ss))].setdefault("events", []).append("OPENER")
+    return case
 
 
 def sample_of(case):
